@@ -170,6 +170,24 @@ def w_group(ki: int, seed: int) -> Part:
                             part.viol("group-unwrap-changes-frame", f"{plain.hex()} -> {back.to_knx().hex()}", case, rank=(len(plain),))
                     except Exception as exc:  # noqa: BLE001
                         part.viol(exc_sig("group-reference-wrapper-rejected", exc), f"frame={plain.hex()}: {exc!r}", case, rank=(len(plain),))
+                    # tamper evidence on the multicast path too: EVERY single-bit flip of the peer's wrapper (session id field included)
+                    if len(plain) <= 24 or plain is plain_frames()[-1]:
+                        for pos in range(len(peer)):
+                            for bit in range(8):
+                                raw = peer[:pos] + bytes((peer[pos] ^ (1 << bit),)) + peer[pos + 1:]
+                                part.evaluations += 1
+                                field = "header" if pos < 6 else "session-id" if pos < 8 else "sequence" if pos < 14 else "serial" if pos < 20 else "tag" if pos < 22 else "mac" if pos >= len(peer) - 16 else "ciphertext"
+                                try:
+                                    f2, rest = KNXIPFrame.from_knx(raw)
+                                    if rest:
+                                        continue
+                                    got = g.decrypt_frame(f2)
+                                except (ip_secure_mod.KNXSecureValidationError, CouldNotParseKNXIP, AssertionError):
+                                    continue
+                                except Exception as exc:  # noqa: BLE001
+                                    part.viol(exc_sig(f"group-tamper-raises-undeclared:{field}", exc), f"bit {bit} of octet {pos}: {exc!r}", {**case, "pos": pos, "bit": bit})
+                                    continue
+                                part.viol(f"group-tampered-wrapper-accepted:{field}", f"SecureGroup: bit {bit} of octet {pos} ({field}) flipped, still unwraps to {got.to_knx().hex()}", {**case, "pos": pos, "bit": bit}, rank=(len(plain), pos))
             finally:
                 g.secure_timer.stop()
     finally:
